@@ -314,12 +314,31 @@ def rule_T3(ctx):
     ok = len(rets) >= 1 and all(r.value is not None and isinstance(_resolved_c(r.value), ast.Call) and call_name(_resolved_c(r.value)).split(".")[-1] == "_run_main_sampler" for r in rets)
     ctx.check(ok, "T3", "run_phyclone_chain returns what _run_main_sampler returned", c.where(), "the chain's result is not the main sampler's result", construct=c.qualname, stmt="return results")
     r = prog.fn("run.run")
-    exc = [n for n in ast.walk(r.node) if isinstance(n, ast.Raise) and n.exc is not None and u(n.exc) == "exception"]
-    ex_assign = [n for n in ast.walk(r.node) if isinstance(n, ast.Assign) and u(n.targets[0]) == "exception" and u(n.value) == "future.exception()"]
+    # run.run and the helpers of its module it calls (the collection loop may live in one)
+    scope, todo = [], [r]
+    while todo:
+        g = todo.pop()
+        if any(g is x for x in scope):
+            continue
+        scope.append(g)
+        for cc in calls(g.node):
+            if isinstance(cc.func, ast.Name):
+                h = prog.resolve_function(cc.func.id, g.module)
+                if h is not None and h.module is r.module and h.name != "run_phyclone_chain":
+                    todo.append(h)
+    found = None
+    for g in scope:
+        pmg = parents(g.node)
+        for asg in [n for n in ast.walk(g.node) if isinstance(n, ast.Assign) and len(n.targets) == 1 and isinstance(n.targets[0], ast.Name) and isinstance(n.value, ast.Call) and isinstance(n.value.func, ast.Attribute) and n.value.func.attr == "exception"]:
+            var = asg.targets[0].id
+            for ra in [n for n in ast.walk(g.node) if isinstance(n, ast.Raise) and n.exc is not None and u(n.exc) == var]:
+                gs = [(u(t).replace(" ", ""), pol) for t, pol in guards_of(ra, pmg)]
+                if any((t == var + "isnotNone" and pol) or (t == var + "isNone" and not pol) or (t == var and pol) for t, pol in gs):
+                    found = (g, ra)
+    ok = found is not None
+    ctx.check(ok, "T3", "run.run re-raises a worker's exception", found[0].where(found[1]) if found else r.where(), "a worker exception is not re-raised (a failed chain would silently be missing from the trace)", construct=r.qualname, stmt="raise exception")
     pm = parents(r.node)
-    ok = len(exc) == 1 and len(ex_assign) == 1 and any(u(t) == "exception is not None" and pol for t, pol in guards_of(exc[0], pm))
-    ctx.check(ok, "T3", "run.run re-raises a worker's exception", r.where(exc[0]) if exc else r.where(), "a worker exception is not re-raised (a failed chain would silently be missing from the trace)", construct=r.qualname, stmt="raise exception")
-    hs = [n for n in ast.walk(r.node) if isinstance(n, ast.Try)]
+    hs = [n for g in scope for n in ast.walk(g.node) if isinstance(n, ast.Try)]
     ctx.check(not hs, "T3", "run.run has no handler that could swallow a failure", r.where(hs[0]) if hs else r.where(), "run.run contains a try block", construct=r.qualname, stmt="try")
     w = calls(r.node, name="create_main_run_output")
     ok = len(w) == 1 and not guards_of(w[0], pm) and not any(isinstance(a, (ast.For, ast.While)) for a in _ancestors(w[0], pm))
